@@ -162,6 +162,8 @@ def build(cfg, workdir, perm_seed=None, perm_kinds=None):
                                    prov=cfg.get("advProv", 0))
     else:
         raise ValueError(alg)
+    if cfg.get("prelude") and alg in ("batch", "queue"):
+        _run_prelude(cfg, workdir, S, planning, algo.inner, reg)
     if cfg.get("decoy"):
         _start_decoy(cfg, path, S)
     # the simulation's own `delay` argument: the scripted stand-in, or (viaSim)
@@ -175,6 +177,34 @@ def build(cfg, workdir, perm_seed=None, perm_kinds=None):
 
 
 _DECOYS = []
+
+
+def _run_prelude(cfg, workdir, S, planning, policy, reg):
+    """an earlier simulation of the same process, run to its end with the very
+    same planning-model and scheduling-policy objects on a larger cluster (two
+    more machines), as a parameter sweep would do: nothing of it may be left
+    in those objects when the traced simulation starts"""
+    import simpy
+    from topsim.core.simulation import Simulation
+    from topsim.user.telescope import Telescope
+    big = dict(cfg)
+    big["machines"] = list(cfg["machines"]) + [{"id": "m8", "cpu": 1, "bw": 1}, {"id": "m9", "cpu": 2, "bw": 1}]
+    sub = os.path.join(workdir, "prelude")
+    os.makedirs(sub, exist_ok=True)
+    try:
+        p2 = materialise(big, sub)
+        if hasattr(planning, "registry"):
+            planning.registry = S.PlanRegistry({})
+        d = Simulation(simpy.Environment(), p2, Telescope, planning, 'batch', policy,
+                       delay=S.ScriptedDelayModel(), timestamp=0)
+        d.start(runtime=300)
+    except HarnessError:
+        raise
+    except Exception:       # the prelude's own fate is not under test
+        pass
+    finally:
+        if hasattr(planning, "registry"):
+            planning.registry = reg
 
 
 def _start_decoy(cfg, path, S):
